@@ -1940,6 +1940,25 @@ def build_pso(case, data):
         op = odl.ProductSpaceOperator(mat, domain=odl.ProductSpace(space, nc),
                                       range=odl.ProductSpace(space, m))
         coo = op.ops
+    elif kind == 'psocoo':
+        # round 5: constructed from an explicit COO matrix whose entries come in the recorded
+        # (shuffled, in general NOT row-grouped) order
+        from odl.util import COOMatrix
+        order = [tuple(t) for t in case['order']]
+        dat = np.empty(len(order), dtype=object)
+        dat[:] = [blocks[t] for t in order]
+        op = odl.ProductSpaceOperator(
+            COOMatrix(dat, ([i for i, _ in order], [j for _, j in order]), (m, nc)),
+            domain=odl.ProductSpace(space, nc), range=odl.ProductSpace(space, m))
+        coo = op.ops
+    elif kind == 'psoadj':
+        # round 5: the ADJOINT of a block operator of self-adjoint linear leaves; the library
+        # builds it with the TRANSPOSED entry order. `blocks` are recorded at the positions of
+        # the adjoint (the operator that is called): forward block (c, r) = blocks[(r, c)].
+        mat = [[blocks.get((c, r)) for c in range(m)] for r in range(nc)]
+        op = odl.ProductSpaceOperator(mat, domain=odl.ProductSpace(space, m),
+                                      range=odl.ProductSpace(space, nc)).adjoint
+        coo = op.ops
     elif kind == 'bcast':
         op = odl.BroadcastOperator(*[blocks[(i, 0)] for i in range(m)])
         coo = op.prod_op.ops
@@ -1961,6 +1980,9 @@ def build_pso(case, data):
         # the model receives the blocks in the order of the real COO storage
         order = list(zip([int(t) for t in coo.row], [int(t) for t in coo.col]))
         entries = '@'.join('{}~{}~{}'.format(i, j, toks[(i, j)]) for i, j in order) or '-'
+        rows = [i for i, _ in order]
+        case['_ungrouped'] = any(rows[k] in rows[:k] and rows[k - 1] != rows[k]
+                                 for k in range(1, len(rows)))
     else:
         entries = '-'
     return op, entries
@@ -2067,7 +2089,7 @@ def run_pso(ctx, count):
     import random
     lines, pend = [], []
     # a FIXED set first (constant seed: every class x mode stratum occurs), then the seeded ones
-    plan = [random.Random(20260927)] * 100 + [ctx.rng] * count
+    plan = [random.Random(20260927)] * 120 + [ctx.rng] * count
     for rng in plan:
         n = rng.choice([1, 2, 3])
         space = odl.rn(n)
@@ -2077,7 +2099,9 @@ def run_pso(ctx, count):
                     sig=np.array([rng.choice([0.5, 1.0, 2.0]) for _ in range(n)]),
                     lo=np.array([rng.choice([-1.0, -0.5, 0.0]) for _ in range(n)]),
                     up=np.array([rng.choice([0.5, 1.0, 2.0]) for _ in range(n)]))
-        kind = rng.choice(['pso', 'pso', 'bcast', 'red', 'diag', 'diag', 'proj', 'projadj', 'projl'])
+        kind = rng.choice(['pso', 'pso', 'bcast', 'red', 'diag', 'diag', 'proj', 'projadj', 'projl',
+                           'psocoo', 'psoadj'])
+        order = None
         idx = 0
         idxs = []
 
@@ -2093,6 +2117,33 @@ def run_pso(ctx, count):
                         blocks[(i, j)] = block()
             if not blocks:
                 blocks[(0, 0)] = block()
+        elif kind == 'psocoo':
+            m, nc = rng.choice([2, 3]), rng.choice([1, 2, 3])
+            for i in range(m):
+                for j in range(nc):
+                    if rng.random() < 0.7 or (i, j) in ((0, 0), (1, 0)):
+                        blocks[(i, j)] = block()
+            order = sorted(blocks)
+            for _ in range(20):       # an entry order in which some row is NOT contiguous
+                rng.shuffle(order)
+                rws = [i for i, _ in order]
+                if any(rws[k] in rws[:k] and rws[k - 1] != rws[k] for k in range(1, len(rws))):
+                    break
+        elif kind == 'psoadj':
+            # forward operator nc x m (rows x cols) with a full leading 2 x 2 part, so that the
+            # transposed entry order of `.adjoint` is not row-grouped
+            m, nc = rng.choice([2, 3]), rng.choice([2, 3])
+
+            def sa_block():
+                if rng.random() < 0.5:
+                    c = rng.choice([2.0, -1.0, 0.5, -0.25, 1.0])
+                    return 'scal:{}'.format(bits(c)), 'scal'
+                v = [rng.choice([-2.0, -1.0, -0.5, 0.5, 1.0, 2.0, 0.25]) for _ in range(n)]
+                return 'mult:' + bl(v, '|'), 'mult'
+            for i in range(m):
+                for j in range(nc):
+                    if (i < 2 and j < 2) or rng.random() < 0.6:
+                        blocks[(i, j)] = sa_block()
         elif kind in ('bcast', 'red', 'diag'):
             k = rng.choice([1, 2, 3])
             m, nc = {'bcast': (k, 1), 'red': (1, k), 'diag': (k, k)}[kind]
@@ -2113,7 +2164,8 @@ def run_pso(ctx, count):
                                  (','.join(map(str, idxs)) if kind == 'projl' else idx))
         pre = rng.choice(['garbage', 'nan', 'inf'])
         case = {'kind': 'pso', 'class': kind, 'shape': shape[:300], 'n': n, 'm': m, 'nc': nc,
-                'idx': idx, 'idxs': idxs, 'prefill': pre, 'data': data_to_json(data),
+                'idx': idx, 'idxs': idxs, 'order': [list(t) for t in order] if order else None,
+                'prefill': pre, 'data': data_to_json(data),
                 'blocks': [[i, j, blocks[(i, j)][0]] for i, j in sorted(blocks)],
                 'x': [[rng.randint(-16, 16) / 8.0 for _ in range(n)] for _ in range(nc)],
                 'y': [[{'garbage': 777.25 + i, 'nan': float('nan'), 'inf': float('inf')}[pre]] * n
@@ -2129,6 +2181,9 @@ def run_pso(ctx, count):
                  if desc['n'] == 1 and len(ctx.samples) < 12 else None)
         ctx.hit(('pso/{}/{}' if not mode.startswith('wrap-') else 'wrap/{}/{}').format(
             desc['class'], mode.replace('wrap-', '')))
+        if desc.get('_ungrouped') and mode == 'ip':
+            # round 5: in-place call over a COO entry order in which a row is not contiguous
+            ctx.hit('pso-order/{}/ungrouped-ip'.format(desc['class']))
         if mode.startswith('wrap-') and desc['class'] == 'red' and ans.startswith('ok '):
             # identity of the returned object: `out` itself in place, a new object out of place
             ret = int(ans.rsplit('ret=', 1)[1])
@@ -2679,6 +2734,146 @@ def run_wrapper_strata(ctx, reps, only=None):
 
 
 # ---------------------------------------------------------------------------
+# history stream (round 5): RESULT OWNERSHIP over time for every wrapper class that accepts a
+# user temporary (`tmp=`, `tmp_ran=`, `tmp_dom=`), and the wrappers the library derives from
+# them with the same temporary, over inner operators whose out-of-place result is their
+# argument itself or a view of it. r1 = op(x1) is kept; then op(x2), op(x3, out=y3) and
+# op(x1, out=y1) are called: r1 must be bit for bit unchanged, equal to y1, and share no memory
+# with the operator's state (its temporaries) nor with the result of another call.
+
+HISTORY_LEAVES = ('real', 'flatten', 'unflatten', 'ret-input')
+HISTORY_WRAPPERS = ('RightScalarMult[tmp]', 'RightScalarMult[tmp]*c', 'Sum[tmp_ran,tmp_dom]',
+                    'Comp[tmp]', 'Comp[tmp]*c', 'RightScalarMult[tmp].derivative',
+                    'RightScalarMult[tmp].adjoint', 'Comp[tmp].adjoint', 'Sum[tmp].adjoint')
+HISTORY_BRANCHES = ['history/{}/{}'.format(w, l) for w in HISTORY_WRAPPERS for l in HISTORY_LEAVES]
+
+
+def history_leaves():
+    import odl
+    d2 = odl.uniform_discr([0, 0], [1, 1], (2, 3))
+    r4 = odl.rn(4)
+
+    class RetInput(odl.Operator):
+        """Harness-defined linear operator whose out-of-place body returns its argument."""
+
+        def _call(self, x):
+            return x
+
+        @property
+        def adjoint(self):
+            return self
+    return [('real', lambda: odl.RealPart(r4)),
+            ('flatten', lambda: odl.FlatteningOperator(d2)),
+            ('unflatten', lambda: odl.FlatteningOperator(d2).inverse),
+            ('ret-input', lambda: RetInput(r4, r4, linear=True))]
+
+
+def deep_state_arrays(op, depth=0, seen=None):
+    """Arrays reachable from the attributes of an operator (its temporaries, vectors, and the
+    state of the operators it wraps)."""
+    import odl
+    seen = set() if seen is None else seen
+    out = []
+    if id(op) in seen or depth > 6:
+        return out
+    seen.add(id(op))
+    try:
+        attrs = list(vars(op).values())
+    except TypeError:
+        return out
+    for v in attrs:
+        if isinstance(v, odl.Operator):
+            out += deep_state_arrays(v, depth + 1, seen)
+        else:
+            out += arrays_of(v)
+    return out
+
+
+def history_wrappers(L, c, rng):
+    import odl
+    D, R = L.domain, L.range
+    back = L.inverse if D != R else L        # R -> D, so that compositions / sums type-check
+    rs = lambda: odl.OperatorRightScalarMult(L, c, tmp=D.element())           # noqa
+    cp = lambda: odl.OperatorComp(back, L, tmp=R.element())                    # noqa
+    sm = lambda: odl.OperatorSum(L, L, tmp_ran=R.element(), tmp_dom=D.element())  # noqa
+    p0 = rand_elem(D, rng)
+    return [('RightScalarMult[tmp]', rs),
+            ('RightScalarMult[tmp]*c', lambda: rs() * 0.5),
+            ('Sum[tmp_ran,tmp_dom]', sm),
+            ('Comp[tmp]', cp),
+            ('Comp[tmp]*c', lambda: cp() * 2.0),
+            ('RightScalarMult[tmp].derivative', lambda: rs().derivative(p0)),
+            ('RightScalarMult[tmp].adjoint', lambda: rs().adjoint),
+            ('Comp[tmp].adjoint', lambda: cp().adjoint),
+            ('Sum[tmp].adjoint', lambda: sm().adjoint)]
+
+
+def run_history(ctx, reps, only=None):
+    """`only` = (wrapper, leaf, seed) replays exactly one recorded stratum."""
+    import random
+    for lname, mkL in history_leaves():
+        if only is not None and only[1] != lname:
+            continue
+        for rep in range(reps):
+            hseed = ctx.rng.getrandbits(48) if only is None else only[2]
+            rng = random.Random(hseed)
+            L = mkL()
+            c = rng.choice([2.0, -0.5, 3.0])
+            for wname, mkw in history_wrappers(L, c, rng):
+                if only is not None and only[0] != wname:
+                    continue
+                label = 'history/{}/{}'.format(wname, lname)
+                case = {'kind': 'history', 'wrapper': wname, 'leaf': lname, 'hseed': hseed}
+                key = 'history {} over {}'.format(wname, lname)
+                try:
+                    W = mkw()
+                except Exception as e:  # noqa
+                    ctx.disagree(dict(case, label=label),
+                                 'cannot build: {}: {}'.format(type(e).__name__, str(e)[:80]),
+                                 'stratum expected', stream='history')
+                    continue
+                ctx.hit(label)
+                x1, x2, x3 = (rand_elem(W.domain, rng) for _ in range(3))
+                o1 = safe_call(W, x1)
+                ctx.case(('history', wname, lname) if o1.status == 'ok' and np.any(o1.val != 0)
+                         else None)
+                if o1.status != 'ok':
+                    ctx.violation(key + ' check=raises-on-valid-input', 'op(x1) raises ' + o1.status,
+                                  case)
+                    continue
+                r1, snap = o1.obj, o1.val.copy()
+                if shares(arrays_of(r1), deep_state_arrays(W)):
+                    ctx.violation(key + ' check=result-shares-operator-state',
+                                  'the element returned by op(x1) shares memory with an attribute '
+                                  '(temporary) of the operator', case)
+                o2 = safe_call(W, x2)
+                if o2.status == 'ok' and not bitsame(snapshot(r1), snap):
+                    ctx.violation(key + ' check=earlier-result-changed-by-oop-call',
+                                  'r1 = op(x1) reads {} after op(x2), was {}'.format(
+                                      snapshot(r1)[:6], snap[:6]), case)
+                    continue
+                if o2.status == 'ok' and shares(arrays_of(r1), arrays_of(o2.obj)):
+                    ctx.violation(key + ' check=two-results-share-memory',
+                                  'op(x1) and op(x2) share memory (x1, x2 are different objects)',
+                                  case)
+                y3 = filled(W.range, 'nan', rng)
+                o3 = safe_call(W, x3, out=y3)
+                if o3.status == 'ok' and not bitsame(snapshot(r1), snap):
+                    ctx.violation(key + ' check=earlier-result-changed-by-in-place-call',
+                                  'r1 = op(x1) reads {} after op(x3, out=y3), was {}'.format(
+                                      snapshot(r1)[:6], snap[:6]), case)
+                    continue
+                y1 = filled(W.range, 'garbage', rng)
+                o4 = safe_call(W, x1, out=y1)
+                if o4.status != 'ok' or o4.obj is not y1:
+                    ctx.violation(key + ' check=in-place', 'op(x1, out=y1): ' + o4.status, case)
+                elif not bitsame(snapshot(y1), snapshot(r1)):
+                    ctx.violation(key + ' check=in-place-equals-earlier-oop',
+                                  'op(x1, out=y1) = {} but the kept op(x1) reads {}'.format(
+                                      snapshot(y1)[:6], snapshot(r1)[:6]), case)
+
+
+# ---------------------------------------------------------------------------
 # per-class branch coverage of the `_call` bodies (and the same-module helpers they call),
 # measured while the zoo runs: which `if` conditions were taken both ways
 
@@ -2868,7 +3063,9 @@ EXPECTED_BRANCHES = (
     ['argform/{}/{}'.format(c, o) for c, o, _, _ in argform_instances()] +
     ['layout/out-F', 'layout/out-strided', 'layout/x-F', 'size/large-2d', 'ownership/result'] +
     ['ownership/result/' + c for c in MODELLED if c != 'InnerProductOperator'] +
-    LEAF_BRANCHES + WRAP_BRANCHES)
+    LEAF_BRANCHES + WRAP_BRANCHES +
+    ['pso/{}/{}'.format(k, m) for k in ('psocoo', 'psoadj') for m in ('oop', 'ip')] +
+    ['pso-order/psocoo/ungrouped-ip', 'pso-order/psoadj/ungrouped-ip'] + HISTORY_BRANCHES)
 
 
 def report_unhit(ctx):
@@ -2934,6 +3131,7 @@ def _run(ctx):
     run_pso(ctx, 120 if ctx.quick else 1200)
     run_leaves(ctx, 60 if ctx.quick else 1500)
     run_wrapper_strata(ctx, 1 if ctx.quick else 4)
+    run_history(ctx, 1 if ctx.quick else 6)
     run_layouts(ctx)
     run_argforms(ctx)        # (not deep: the spellings differ in construction, not in inputs)
     run_zoo(ctx, deep=not ctx.quick)
@@ -2949,6 +3147,7 @@ def search(ctx, broken):
     run_pso(ctx, 1000)
     run_leaves(ctx, 3000)
     run_wrapper_strata(ctx, 10)
+    run_history(ctx, 20)
 
 
 def replay(ctx, case):
@@ -2998,6 +3197,10 @@ def replay(ctx, case):
     if case.get('kind') == 'pso':
         sub = Ctx2()
         eval_pso(sub, case, None, None)
+        return sub.violations[0]['what'] if sub.violations else None
+    if case.get('kind') == 'history':
+        sub = Ctx2()
+        run_history(sub, 1, only=(case['wrapper'], case['leaf'], case['hseed']))
         return sub.violations[0]['what'] if sub.violations else None
     if case.get('kind') == 'leaf':
         sub = Ctx2()
